@@ -75,7 +75,7 @@ func (en *Engine) doCall(st *State, fr *Frame, x *ssa.Call) ([]*State, bool, err
 		st.addEvent(&Event{Kind: EvDeref, Instr: x, X: args[0], Callee: "invoke"})
 	}
 	if callee != nil && callee.Blocks != nil && en.P.inModule(callee) && !en.inStack(st, callee) &&
-		len(st.frames) < 12 && en.Inline != nil && (isBoundWrapper(callee) || en.boundInl[callee] || en.Inline(fr.fn, callee, len(st.frames))) {
+		len(st.frames) < 12 && en.Inline != nil && (isBoundWrapper(callee) || (en.boundInl[callee] && !en.Excluded[callee]) || en.Inline(fr.fn, callee, len(st.frames))) {
 		en.pushFrame(st, fr, x, callee, bindings, args, false, "")
 		return nil, true, nil
 	}
@@ -345,6 +345,14 @@ func mkLen(st *State, x Val, t types.Type) Val {
 	if a, ok := x.(*AllocV); ok && st != nil {
 		if c, ok := st.heap["len:"+a.Key()]; ok {
 			return c.val
+		}
+	}
+	if m, ok := x.(*MapV); ok {
+		return mkLen(st, m.Coll, t)
+	}
+	if app, ok := x.(*AppendV); ok && !app.Spread {
+		if k, isC := constInt(mkLen(st, app.S, t)); isC {
+			return intV(k + int64(len(app.Elems)))
 		}
 	}
 	if sl, ok := x.(*SliceV); ok {
